@@ -54,18 +54,18 @@ Next ==
      ELSE IF r.op = "feed" THEN
         sbuf' = sbuf \o r.bytes /\ sall' = sall \o r.bytes /\ UNCHANGED <<sout, dead, bad>>
      ELSE IF r.op = "step" THEN
-        LET nb == sbuf \o r.bytes pr == ParsePrefix(nb) IN
+        LET nb == sbuf \o r.bytes m == Match(nb, r.entries) IN
         /\ sall' = sall \o r.bytes
         /\ IF r.verdict # "ok" THEN Mark(r, "crash") /\ dead' = TRUE /\ UNCHANGED <<sbuf, sout>>
-           ELSE IF r.entries # pr[1] THEN Mark(r, "entries") /\ dead' = TRUE /\ UNCHANGED <<sbuf, sout>>
-           ELSE IF r.left # Len(nb) - pr[2] THEN Mark(r, "left") /\ dead' = TRUE /\ UNCHANGED <<sbuf, sout>>
-           ELSE IF r.rem_head # SubSeq(nb, pr[2] + 1, Min({Len(nb), pr[2] + 8})) THEN
+           ELSE IF ~m.ok THEN Mark(r, "entries") /\ dead' = TRUE /\ UNCHANGED <<sbuf, sout>>
+           ELSE IF r.left # Len(nb) - m.consumed THEN Mark(r, "left") /\ dead' = TRUE /\ UNCHANGED <<sbuf, sout>>
+           ELSE IF r.rem_head # SubSeq(nb, m.consumed + 1, Min({Len(nb), m.consumed + 8})) THEN
                 Mark(r, "remainder") /\ dead' = TRUE /\ UNCHANGED <<sbuf, sout>>
-           ELSE /\ sbuf' = SubSeq(nb, pr[2] + 1, Len(nb)) /\ sout' = sout \o pr[1]
+           ELSE /\ sbuf' = SubSeq(nb, m.consumed + 1, Len(nb)) /\ sout' = sout \o r.entries
                 /\ UNCHANGED <<bad, dead>>
      ELSE \* "end": split invariance against a one-shot parse of everything fed
-        LET pr == ParsePrefix(sall) IN
-        /\ (IF sout = pr[1] /\ sbuf = SubSeq(sall, pr[2] + 1, Len(sall)) THEN bad' = bad ELSE Mark(r, "split"))
+        LET m == Match(sall, sout) IN
+        /\ (IF m.ok /\ sbuf = SubSeq(sall, m.consumed + 1, Len(sall)) THEN bad' = bad ELSE Mark(r, "split"))
         /\ UNCHANGED <<sbuf, sall, sout, dead>>
 Spec == Init /\ [][Next]_vars
 Done == (l = Len(Recs) + 1) => PrintT(<<"MISMATCH", bad>>)
